@@ -17,6 +17,7 @@ import (
 )
 
 var allRules []*Rule
+var debugHooks = map[string]func(c *Ctx, arg string){}
 var dumpJSONFlag bool
 
 func register(r *Rule) { allRules = append(allRules, r) }
@@ -105,6 +106,15 @@ func main() {
 		}
 		dumpJSONFlag = *jsonOut
 		os.Exit(runDump(pos[0], *repo, *onlyBad))
+	case "debug":
+		c, err := loadRepo(*repo, loadOpts{})
+		if err != nil {
+			fmt.Println(err)
+			os.Exit(2)
+		}
+		if h := debugHooks[pos[0]]; h != nil && len(pos) > 1 {
+			h(c, pos[1])
+		}
 	case "selftest":
 		os.Exit(runSelftest(*verif))
 	case "mutants":
@@ -455,4 +465,21 @@ func runDump(rule, repo string, onlyBad bool) int {
 	}
 	fmt.Printf("# total %d obligations, %d not ok\n", len(rep.Obs), bad)
 	return 0
+}
+
+func init() {
+	debugHooks["edges"] = func(c *Ctx, arg string) {
+		for _, fn := range c.Funcs {
+			if c.fnName(fn) != arg {
+				continue
+			}
+			for _, e := range c.CG().Out[fn] {
+				callee := e.Ext
+				if e.Callee != nil {
+					callee = c.fnName(e.Callee)
+				}
+				fmt.Printf("%s -> %s [%s] at %s\n", arg, callee, e.Kind, c.posStr(instrPos(e.Site)))
+			}
+		}
+	}
 }
